@@ -174,6 +174,8 @@ class Server:
 
     def apply(self, name, a, kw):
         self.ncmd += 1
+        if a and isinstance(a[0], bytes) and name != "delete":     # key names: bytes and str are the same key
+            a = (a[0].decode(),) + tuple(a[1:])
         return getattr(self, "c_" + name)(*a, **kw)
 
 
